@@ -1,6 +1,6 @@
 """Builds the C17 instrumentation overlays (index recorder + block counters)
 with harness/cmd/verifinstr; /repo is only read."""
-import os, subprocess
+import json, os, re, subprocess
 
 GROUPS = ["verif_fiat", "verif_swu", "verif_mul", "verif_secec", "verif_btc", "verif_btcparse", "verif_h2c"]
 
@@ -14,12 +14,29 @@ def make_overlays(tmp, configs, overlay, ENV, HARNESS, REPO, log):
     for c in configs:
         tags = ["verif"] + GROUPS + (["purego"] if "purego" in c else [])
         d = os.path.join(tmp, "instr-" + c)
-        cmd = [tool, "-repo", REPO, "-tags", ",".join(tags), "-out", d]
-        if overlay:
-            cmd += ["-base-overlay", overlay]
-        r = subprocess.run(cmd, cwd=HARNESS, env=ENV, stdout=subprocess.PIPE, stderr=subprocess.STDOUT, text=True)
-        if r.returncode != 0:
-            raise RuntimeError("instrumentation failed for %s:\n%s" % (c, r.stdout[-3000:]))
-        log("instr %s: %s" % (c, r.stdout.strip()))
+        noindex = []
+        for attempt in range(3):
+            cmd = [tool, "-repo", REPO, "-tags", ",".join(tags), "-out", d]
+            if overlay:
+                cmd += ["-base-overlay", overlay]
+            if noindex:
+                cmd += ["-no-index", ",".join(sorted(set(noindex)))]
+            r = subprocess.run(cmd, cwd=HARNESS, env=ENV, stdout=subprocess.PIPE, stderr=subprocess.STDOUT, text=True)
+            if r.returncode != 0:
+                raise RuntimeError("instrumentation failed for %s:\n%s" % (c, r.stdout[-3000:]))
+            # does the instrumented library compile?  (core tag only: hook groups are the driver's business)
+            b = subprocess.run(["go", "build", "-overlay", os.path.join(d, "overlay.json"), "-tags", "verif" + (",purego" if "purego" in c else ""),
+                                "gitlab.com/yawning/secp256k1-voi/..."], cwd=HARNESS, env=ENV, stdout=subprocess.PIPE, stderr=subprocess.STDOUT, text=True)
+            if b.returncode == 0:
+                break
+            # fall back to block counters only for the files whose instrumented source does not compile
+            # (an index expression the recorder should not have wrapped)
+            stages = json.load(open(os.path.join(d, "stages.json")))
+            bad = sorted(set(stages[m] for m in re.findall(r"(s[12]_\d+_[\w.]+\.go)", b.stdout) if m in stages))
+            if not bad or attempt == 2:
+                raise RuntimeError("the instrumented tree does not compile for %s:\n%s" % (c, b.stdout[-2500:]))
+            log("instr %s: index recorder disabled for %s (instrumented source did not compile)" % (c, ", ".join(bad)))
+            noindex += bad
+        log("instr %s: %s" % (c, r.stdout.strip()) + ((" [no index recorder in: %s]" % ", ".join(sorted(set(noindex)))) if noindex else ""))
         out[c] = os.path.join(d, "overlay.json")
     return out
